@@ -284,6 +284,11 @@ func (ev *Env) eval(e *Expr) Val {
 		if v, ok := ev.vars[e.S]; ok {
 			return v
 		}
+		if nw, ok := ev.c.alias[e.S]; ok {
+			if v, ok := ev.vars[nw]; ok {
+				return v
+			}
+		}
 		if key, ok := ev.ghosts[e.S]; ok {
 			return bvVal(app("select", ev.c.memRaw(ev.mem, key), "0"), 64, true, types.Typ[types.Int])
 		}
